@@ -29,6 +29,7 @@ class NetConfig(object):
         self.connect_delay = (0.0005, 0.004)
         self.connect_outcome = "ack"    # ack | refuse | never
         self.personality = "linux"      # linux | windows
+        self.connect_timeout = None     # seconds after which a connect that never completes fails (ETIMEDOUT)
         self.__dict__.update(kw)
 
 
@@ -144,6 +145,8 @@ class SimSocket(object):
                 raise OSError(10057, "A request to send or receive data was disallowed because the socket is not connected")
             if not self.refused_reported:
                 self.refused_reported = True
+                if getattr(self, "connect_errno", None) == errno.ETIMEDOUT:
+                    raise TimeoutError(errno.ETIMEDOUT, "Connection timed out")
                 raise ConnectionRefusedError(errno.ECONNREFUSED, "Connection refused")
             raise BrokenPipeError(errno.EPIPE, "Broken pipe")
         if st == "listening":
@@ -440,6 +443,14 @@ class Net(object):
 
         if outcome == "never":
             self.stats["connect_never"] += 1
+            if cfg.connect_timeout is not None:
+                def timed_out():
+                    if sock.state == "connecting":
+                        sock.state = "refused"
+                        sock.connect_errno = errno.ETIMEDOUT
+                        sim.log("connect.timeout", sock.name)
+                        sock._kick()
+                sim.after(cfg.connect_timeout, timed_out)
             return
         sim.after(d, done)
 
